@@ -293,7 +293,7 @@ func init() {
 		Bounds: func(t string) map[string]any {
 			return map[string]any{"operand_deviation_bound": c03Bound(t), "alphabet_J": map[string]int{"quick": len(gen.JBoundaryQuick), "thorough": len(gen.JBoundary)}[t], "forks": len(jmForks), "payload_lengths": len(gen.PayloadLengths), "state_read_sentinel": c03ReadSentinel}
 		},
-		Quick:      90 * time.Second,
+		Quick:      120 * time.Second,
 		Thorough:   30 * time.Minute,
 		CrashAware: true,
 		MemLimitKB: 8 << 20,
